@@ -193,6 +193,7 @@ def model_request(graph, cases):
 
 
 def evaluate(ctx, graphs, per_graph=20, all_cases=False):
+    L.preimport()
     jobs = []
     for g in graphs:
         cases = gen_cases(ctx.rng, g, 10 ** 6 if all_cases else per_graph)
@@ -273,7 +274,7 @@ def run(ctx):
         if ctx.out_of_time():
             break
         evaluate(ctx, [c13.enum_graph(i, 2) for i in ids[at:at + 32]], all_cases=True)
-    n = ctx.n(85, 5000)
+    n = ctx.n(60, 5000)
     done = 0
     while done < n and not ctx.out_of_time():
         k = min(40, n - done)
